@@ -55,7 +55,7 @@ func init() {
 			"each evaluated 8x sequentially and by 8 goroutines sharing the inputs; " +
 			"cq (round 4): XPath selectors from the engine's feature set (axes, positional/comparison predicates, every string function with node-set and literal arguments, count/sum/position/last, not/and/or, unions, attributes, text()) and JSONPath (filters, slices, recursive descent, wildcards, scripts) over generated feeds of 3..400 items: one sequential reference, then G=2..16 goroutines released on a barrier x N=4..16 evaluations through dataParse and genQueryResult (same selector / two selectors on one document / one selector on two documents / JSON and XML together), every result compared with the reference after all finished; " +
 			"subm (explicit unsorted member lists with duplicates, 1..300 members), grp (LogGrouping / dissolve histories through the real handleGrouping and pdkg group table, then choseSubmitter), path (content stage -> genSign -> recoverSign -> reportQueryResult for the three kinds); " +
-			"round 5: pm (n = 1..7 real DosNodes with queryLoop, real choseSubmitter -> content stage -> genSign -> dispatchSign -> recoverSign -> reportQueryResult, the data source serving members differently: other document / selector error / cut connection / cut body / over-long body at the submitter only, at one non-submitter, at n-t and n-t+1 members), fetch (dataFetch at 16 MiB - 1, 16 MiB, 16 MiB + 1, cut transfers), grpk (member list of every member after a COMPLETED key generation of 3..4 real pdkg), evs (event sequences through the real onchainLoop -> groupInfo -> handleQuery of one member of a 1..300 member group, request events directly followed by commit-reveal / other events; event objects compared with the emitted values afterwards); " +
+			"round 5: pm (n = 1..7 real DosNodes with queryLoop, real choseSubmitter -> content stage -> genSign -> dispatchSign -> recoverSign -> reportQueryResult, the data source serving members differently: other document / selector error / cut connection / cut body / over-long body at the submitter only, at one non-submitter, at n-t and n-t+1 members), fetch (dataFetch at 16 MiB - 1, 16 MiB, 16 MiB + 1, cut transfers), depth (JSON arrays / objects / brackets inside a string and XML elements nested 1, 2, 999, 1000, 1001, 1002, 5000 deep through dataParse), grpk (member list of every member after a COMPLETED key generation of 3..4 real pdkg), evs (event sequences through the real onchainLoop -> groupInfo -> handleQuery of one member of a 1..300 member group, request events directly followed by commit-reveal / other events; event objects compared with the emitted values afterwards); " +
 			"non-trivial = anything but a 32-byte lastRand without leading zero / an empty selector; distinct = distinct case line",
 		Gen:  gen,
 		Exec: exec,
@@ -528,6 +528,8 @@ func exec(line string) (res h.Result) {
 		return execPM(w)
 	case "grpk":
 		return execGrpK(w)
+	case "depth":
+		return execDepth(w)
 	case "evs":
 		return execEvs(w)
 	case "fetch":
@@ -747,6 +749,8 @@ func gen(tier string, rng *h.Rng, emit func(string)) {
 	genFetch(tier, rng, emit)
 	// round 5: the member list after a COMPLETED key generation (groupk.go)
 	genGrpK(tier, rng, emit)
+	// round 5: the nesting bound of dataParse at 1000 / 1001 levels (depth.go)
+	genDepth(tier, rng, emit)
 	// round 5: event sequences through the real onchainLoop of one member (events.go)
 	genEvs(tier, rng, emit)
 }
